@@ -1171,5 +1171,26 @@ func (e *engine) ClassifyDeath(stderr string, exit int, payload []byte) simkit.V
 		}
 		return simkit.Violation{Class: "process-abort", Sig: "process-abort/" + line, Detail: fmt.Sprintf("while executing %s:\n%s", payload, clipS(stderr, 4000))}
 	}
+	if i := strings.Index(stderr, "panic: "); i >= 0 {
+		// A Go panic that no recover caught: every library call the harness
+		// makes is under recover, so the panicking goroutine is the library's
+		// own (a finalizer, a goroutine it started) or the panic is in library
+		// code reached through the oracle's own reads of shared operands. If the
+		// panicking stack has library frames at the top, it is the library's.
+		rest := stderr[i:]
+		if j := strings.Index(rest, "goroutine "); j >= 0 {
+			stack := rest[j:]
+			if k := strings.Index(stack, "\n\n"); k > 0 {
+				stack = stack[:k]
+			}
+			if m := frameRe.FindStringSubmatch(stack); m != nil {
+				line := rest
+				if k := strings.IndexByte(line, '\n'); k > 0 {
+					line = line[:k]
+				}
+				return simkit.Violation{Class: "process-abort", Sig: "process-abort/unrecovered-panic/" + m[1] + "." + m[2], Detail: fmt.Sprintf("a panic in library code escaped on a goroutine the caller cannot guard (%s) while executing %s:\n%s", line, payload, clipS(rest, 3500))}
+			}
+		}
+	}
 	return simkit.Violation{Class: "machinery", Sig: "machinery/worker-died", Detail: fmt.Sprintf("worker died (exit %d) while executing %s: %s", exit, payload, clipS(stderr, 3000))}
 }
